@@ -131,8 +131,8 @@ class RF24:
 
     def read(self, length=None):
         ret_size = length if length is not None else self.any()
-        if not ret_size:
-            return None
+        if not ret_size and (length is not None or self._status >> 1 & 7 > 5):
+            return None  # (an empty payload is still taken out of the RX FIFO)
         result = self._reg_read_bytes(0x61, ret_size)
         self.clear_status_flags(True, False, False)
         return result
